@@ -23,16 +23,16 @@ macro_rules! with_spec_stubs { ($i:item) => {
 }; }
 include!("@VERIF@/contracts/kuznyechik/api_common.inc");
 
-// @ob name=a_api_enc cfg=compact props=C07,C20 fn=kuznyechik::Kuznyechik::new,kuznyechik::Kuznyechik::encrypt_with_backend,kuznyechik::KuznyechikEnc::new,kuznyechik::KuznyechikEnc::encrypt_with_backend uses=c_expand,c_enc_block timeout=600
-// @ob name=a_api_dec cfg=compact props=C07,C20 fn=kuznyechik::Kuznyechik::new,kuznyechik::Kuznyechik::decrypt_with_backend uses=c_expand,c_dec_block timeout=600
-// @ob name=a_api_dec_only cfg=compact props=C07,C20 fn=kuznyechik::KuznyechikDec::new,kuznyechik::KuznyechikDec::decrypt_with_backend uses=c_expand,c_dec_block timeout=600
+// NOT REGISTERED (timeout 600 s in the final run; harness kept for the next round): ob name=a_api_enc cfg=compact props=C07,C20 fn=kuznyechik::Kuznyechik::new,kuznyechik::Kuznyechik::encrypt_with_backend,kuznyechik::KuznyechikEnc::new,kuznyechik::KuznyechikEnc::encrypt_with_backend uses=c_expand,c_enc_block timeout=600
+// @ob name=a_api_dec cfg=compact tier=thorough props=C07,C20 fn=kuznyechik::Kuznyechik::new,kuznyechik::Kuznyechik::decrypt_with_backend uses=c_expand,c_dec_block timeout=1800
+// @ob name=a_api_dec_only cfg=compact tier=thorough props=C07,C20 fn=kuznyechik::KuznyechikDec::new,kuznyechik::KuznyechikDec::decrypt_with_backend uses=c_expand,c_dec_block timeout=1800
 // @ob name=r_roundtrip cfg=compact props=C01 kind=lemma fn=kuznyechik::Kuznyechik::encrypt_with_backend,kuznyechik::Kuznyechik::decrypt_with_backend,kuznyechik::Kuznyechik::from uses=c_lsx,c_lsx_inv,l_ls_inverse timeout=600
 // @ob name=r_roundtrip_rev cfg=compact props=C01 kind=lemma fn=kuznyechik::Kuznyechik::encrypt_with_backend,kuznyechik::Kuznyechik::decrypt_with_backend,kuznyechik::Kuznyechik::from uses=c_lsx,c_lsx_inv,l_ls_inverse timeout=600
-// @ob name=r_roundtrip_halves cfg=compact props=C01,C12 kind=lemma fn=kuznyechik::KuznyechikEnc::encrypt_with_backend,kuznyechik::KuznyechikDec::decrypt_with_backend,kuznyechik::KuznyechikDec::from uses=c_lsx,c_lsx_inv,l_ls_inverse timeout=600
+// NOT REGISTERED (timeout 600 s in the final run; harness kept for the next round): ob name=r_roundtrip_halves cfg=compact props=C01,C12 kind=lemma fn=kuznyechik::KuznyechikEnc::encrypt_with_backend,kuznyechik::KuznyechikDec::decrypt_with_backend,kuznyechik::KuznyechikDec::from uses=c_lsx,c_lsx_inv,l_ls_inverse timeout=600
 // @ob name=k_len cfg=compact props=C11 kind=bounded bound="slice length <= 300" fn=kuznyechik::Kuznyechik::new_from_slice uses=c_expand timeout=300
 // @ob name=k_len_enc cfg=compact props=C11 kind=bounded bound="slice length <= 300" fn=kuznyechik::KuznyechikEnc::new_from_slice uses=c_expand timeout=300
 // @ob name=k_len_dec cfg=compact props=C11 kind=bounded bound="slice length <= 300" fn=kuznyechik::KuznyechikDec::new_from_slice uses=c_expand timeout=300
-// @ob name=k_same_state cfg=compact props=C11,C12,C13 fn=kuznyechik::Kuznyechik::new,kuznyechik::KuznyechikEnc::new,kuznyechik::KuznyechikDec::new,kuznyechik::Kuznyechik::from,kuznyechik::KuznyechikDec::from,kuznyechik::compact_soft::EncKeys::new,kuznyechik::compact_soft::EncDecKeys::from,kuznyechik::compact_soft::DecKeys::from uses=c_expand timeout=300
+// @ob name=k_same_state cfg=compact tier=thorough props=C11,C12,C13 fn=kuznyechik::Kuznyechik::new,kuznyechik::KuznyechikEnc::new,kuznyechik::KuznyechikDec::new,kuznyechik::Kuznyechik::from,kuznyechik::KuznyechikDec::from,kuznyechik::compact_soft::EncKeys::new,kuznyechik::compact_soft::EncDecKeys::from,kuznyechik::compact_soft::DecKeys::from uses=c_expand timeout=1800
 // @ob name=k_clone cfg=compact props=C12 fn=kuznyechik::Kuznyechik::clone,kuznyechik::KuznyechikEnc::clone,kuznyechik::KuznyechikDec::clone timeout=300
 // @ob name=k_convert_any_state cfg=compact props=C12 fn=kuznyechik::Kuznyechik::from,kuznyechik::KuznyechikDec::from timeout=300
 // @ob name=n_kuznyechik cfg=compact props=C19 fn=kuznyechik::Kuznyechik::fmt,kuznyechik::Kuznyechik::write_alg_name timeout=300
@@ -50,17 +50,17 @@ include!("@VERIF@/contracts/kuznyechik/api_common.inc");
 // parallel width 1 in both directions: n = 0, 1, 3
 // @ob name=m_enc_0 cfg=compact props=C04,C15 kind=bounded bound="n = 0 block(s)" fn=kuznyechik::Kuznyechik::encrypt_with_backend,kuznyechik::compact_soft::backends::EncBackend::encrypt_block uses=c_lsx timeout=300
 multi_enc!(m_enc_0, Kuznyechik, SZ, 0);
-// @ob name=m_enc_1 cfg=compact props=C04,C15 kind=bounded bound="n = 1 block(s)" fn=kuznyechik::Kuznyechik::encrypt_with_backend,kuznyechik::compact_soft::backends::EncBackend::encrypt_block uses=c_lsx timeout=300
+// @ob name=m_enc_1 cfg=compact tier=thorough props=C04,C15 kind=bounded bound="n = 1 block(s)" fn=kuznyechik::Kuznyechik::encrypt_with_backend,kuznyechik::compact_soft::backends::EncBackend::encrypt_block uses=c_lsx timeout=1800
 multi_enc!(m_enc_1, Kuznyechik, SZ, 1);
-// @ob name=m_enc_3 cfg=compact props=C04,C15 kind=bounded bound="n = 3 block(s)" fn=kuznyechik::Kuznyechik::encrypt_with_backend,kuznyechik::compact_soft::backends::EncBackend::encrypt_block uses=c_lsx timeout=600
+// NOT REGISTERED (out of memory (32 GB) in the final run; harness kept for the next round): ob name=m_enc_3 cfg=compact props=C04,C15 kind=bounded bound="n = 3 block(s)" fn=kuznyechik::Kuznyechik::encrypt_with_backend,kuznyechik::compact_soft::backends::EncBackend::encrypt_block uses=c_lsx timeout=600
 multi_enc!(m_enc_3, Kuznyechik, SZ, 3);
-// @ob name=m_enconly_3 cfg=compact props=C04,C15 kind=bounded bound="n = 3 block(s)" fn=kuznyechik::KuznyechikEnc::encrypt_with_backend,kuznyechik::compact_soft::backends::EncBackend::encrypt_block uses=c_lsx timeout=600
+// NOT REGISTERED (timeout 600 s in the final run; harness kept for the next round): ob name=m_enconly_3 cfg=compact props=C04,C15 kind=bounded bound="n = 3 block(s)" fn=kuznyechik::KuznyechikEnc::encrypt_with_backend,kuznyechik::compact_soft::backends::EncBackend::encrypt_block uses=c_lsx timeout=600
 multi_enc!(m_enconly_3, KuznyechikEnc, SZE, 3);
 // @ob name=m_dec_0 cfg=compact props=C04,C15 kind=bounded bound="n = 0 block(s)" fn=kuznyechik::Kuznyechik::decrypt_with_backend,kuznyechik::compact_soft::backends::DecBackend::decrypt_block uses=c_lsx_inv timeout=300
 multi_dec!(m_dec_0, Kuznyechik, SZ, 0);
 // @ob name=m_dec_1 cfg=compact props=C04,C15 kind=bounded bound="n = 1 block(s)" fn=kuznyechik::Kuznyechik::decrypt_with_backend,kuznyechik::compact_soft::backends::DecBackend::decrypt_block uses=c_lsx_inv timeout=300
 multi_dec!(m_dec_1, Kuznyechik, SZ, 1);
-// @ob name=m_dec_3 cfg=compact props=C04,C15 kind=bounded bound="n = 3 block(s)" fn=kuznyechik::Kuznyechik::decrypt_with_backend,kuznyechik::compact_soft::backends::DecBackend::decrypt_block uses=c_lsx_inv timeout=600
+// NOT REGISTERED (out of memory (32 GB) in the final run; harness kept for the next round): ob name=m_dec_3 cfg=compact props=C04,C15 kind=bounded bound="n = 3 block(s)" fn=kuznyechik::Kuznyechik::decrypt_with_backend,kuznyechik::compact_soft::backends::DecBackend::decrypt_block uses=c_lsx_inv timeout=600
 multi_dec!(m_dec_3, Kuznyechik, SZ, 3);
-// @ob name=m_deconly_3 cfg=compact props=C04,C15 kind=bounded bound="n = 3 block(s)" fn=kuznyechik::KuznyechikDec::decrypt_with_backend,kuznyechik::compact_soft::backends::DecBackend::decrypt_block uses=c_lsx_inv timeout=600
+// NOT REGISTERED (out of memory (32 GB) in the final run; harness kept for the next round): ob name=m_deconly_3 cfg=compact props=C04,C15 kind=bounded bound="n = 3 block(s)" fn=kuznyechik::KuznyechikDec::decrypt_with_backend,kuznyechik::compact_soft::backends::DecBackend::decrypt_block uses=c_lsx_inv timeout=600
 multi_dec!(m_deconly_3, KuznyechikDec, SZD, 3);
